@@ -37,8 +37,13 @@ class Undecided(Exception):
 # building
 # ----------------------------------------------------------------------------
 _built = {}
+import threading
+_build_lock = threading.Lock()
 def build(name, pkg=None, tags="verif"):
     """go build ./cmd/<name> of the harness module against /repo's working tree."""
+    with _build_lock:
+        return _build(name, pkg, tags)
+def _build(name, pkg=None, tags="verif"):
     if name in _built:
         return _built[name]
     os.makedirs(BUILD, exist_ok=True)
@@ -47,7 +52,9 @@ def build(name, pkg=None, tags="verif"):
     cmd = ["go", "build", "-tags", tags, "-o", out]
     if REPO != "/repo":     # mutation testing in a scratch worktree: alternate go.mod with another replace target
         alt = os.path.join(BUILD, "go.alt.mod")
-        open(alt, "w").write(open(os.path.join(HARNESS, "go.mod")).read().replace("=> /repo", "=> " + REPO))
+        with open(alt + ".tmp", "w") as fh:
+            fh.write(open(os.path.join(HARNESS, "go.mod")).read().replace("=> /repo", "=> " + REPO))
+        os.replace(alt + ".tmp", alt)
         cmd += ["-modfile", alt]
     cmd += [pkg or ("./cmd/" + name)]
     r = subprocess.run(cmd, cwd=HARNESS, env=env, capture_output=True, text=True)
@@ -58,6 +65,9 @@ def build(name, pkg=None, tags="verif"):
 
 def build_repo_bin(name, pkg, tags="verif"):
     """go build a main package of /repo itself (e.g. cmd/scipipe)."""
+    with _build_lock:
+        return _build_repo_bin(name, pkg, tags)
+def _build_repo_bin(name, pkg, tags="verif"):
     if name in _built:
         return _built[name]
     os.makedirs(BUILD, exist_ok=True)
